@@ -248,7 +248,7 @@ theorem meta_row_keys_never_crash_the_cache (a b : Bytes)
 /-- Regenerated: the check `infoFromCell` applies is the two-comma check. -/
 theorem meta_row_key_checked_in_source :
     GV.Gen.Exits.metaRowKeyCheck
-      = "i := bytes.IndexByte(cell.Row, ','); i < 0 || bytes.LastIndexByte(cell.Row, ',') == i" :=
+      = "i < 0 || j == i || j+1 == len(cell.Row) || cell.Row[j+1] < '0' || cell.Row[j+1] > '9'" :=
   GV.RegionName.meta_row_key_checked_in_source
 
 end GV.C11
